@@ -159,4 +159,31 @@ struct Gen2   // as Gen, but the promise accepts yielded values through an overl
   bool failed() const { return static_cast<bool>(h.promise().ex); }
   handle h;
 };
+// an awaitable whose result is a reference: the promise keeps the address of what CO_RETURN named
+template <typename T>
+struct RefTask
+{
+  struct promise_type
+  {
+    T const* value = nullptr;
+    std::exception_ptr ex;
+    RefTask get_return_object() { return RefTask{std::coroutine_handle<promise_type>::from_promise(*this)}; }
+    std::suspend_always initial_suspend() noexcept { return {}; }
+    std::suspend_always final_suspend() noexcept { return {}; }
+    void return_value(T const& v) { value = &v; }
+    void unhandled_exception() noexcept { ex = std::current_exception(); }
+  };
+  using handle = std::coroutine_handle<promise_type>;
+  explicit RefTask(handle h_) : h(h_) {}
+  RefTask(RefTask&& r) noexcept : h(std::exchange(r.h, nullptr)) {}
+  RefTask(RefTask const&) = delete;
+  ~RefTask() { if (h) h.destroy(); }
+  bool await_ready() const noexcept { return h.done(); }
+  void await_suspend(std::coroutine_handle<>) const noexcept {}
+  T const& await_resume() { return result(); }
+  bool done() const { return h.done(); }
+  void resume() { h.resume(); }
+  T const& result() { if (h.promise().ex) std::rethrow_exception(h.promise().ex); return *h.promise().value; }
+  handle h;
+};
 #endif
